@@ -59,7 +59,27 @@ from term_image.renderable import (
 import term_image.renderable._renderable as _renderable_mod
 
 import asyncfault
-from asyncfault import AsyncFault
+
+_TRY_LINES = {}
+
+
+def is_try_line(frame):
+    key = (frame.f_code.co_filename, frame.f_lineno)
+    v = _TRY_LINES.get(key)
+    if v is None:
+        import linecache
+        v = _TRY_LINES[key] = linecache.getline(*key).strip() == "try:"
+    return v
+
+
+class AsyncFault(asyncfault.AsyncFault):
+    """a bare `try:` line is not a fault position: CPython >= 3.11 compiles it to a NOP outside the exception
+    table and never polls for signals there (see impl_c10.line_fault_class; same convention as C07 / C13)"""
+
+    def _local(self, frame, event, arg):
+        if event == "line" and is_try_line(frame):
+            return self._local
+        return super()._local(frame, event, arg)
 
 UNRAISABLE = []
 
@@ -71,7 +91,7 @@ def _unraisable(u):
 sys.unraisablehook = _unraisable
 
 CLEANUP_FUNCS = ("close", "finalize", "__del__", "_finalize_render_data_")
-TIMEOUT = 20  # seconds; only ever waited out when something is broken
+TIMEOUT = 12  # seconds; only ever waited out when something is broken
 
 # ================================================================= ctor
 
@@ -352,13 +372,19 @@ class NRData(DataNamespace, render_cls=NR):
     pos: int
 
 
-def flag_of(serial):
+def data_of(serial):
+    """the render data object, while the driver can still reach it (None once it has been collected)"""
     data = REG.get(serial)
     if data is None and serial in PATH:
         parent, i = PATH[serial]
-        pd = REG.get(parent)
+        pd = data_of(parent)
         if pd is not None:
             data = pd[NR].kids[i][2]
+    return data
+
+
+def flag_of(serial):
+    data = data_of(serial)
     return None if data is None else int(data.finalized)
 
 
@@ -397,101 +423,106 @@ def run_nest(case):
         except Exception:  # noqa: BLE001
             return 2
 
+    def do_step(idx, st):
+        del ENDED[:]
+        before = len(OBJ)
+        what = st[0]
+        out, targets, sched = 0, [], [idx, None, 1]
+        if what in ("next", "exhaust", "close", "drop", "ownerfin", "tclose") and st[1] not in slots:
+            out = 4  # (a shrinking candidate) nothing to operate on
+        elif what == "iter":
+            _, slot, node, ctor = st
+            old = slots.pop(slot, None)  # the previous iterator of the slot loses its last reference first
+            targets = [old[1]] if old and old[2] and old[0] is not None else []
+            del old
+            gc.collect()
+            before = len(OBJ)
+            try:
+                if ctor == "init":
+                    it, kept = RenderIterator(NODES[node]), None
+                else:
+                    kept = NODES[node]._get_render_data_(iteration=True)
+                    it = RenderIterator._from_render_data_(NODES[node], kept, finalize=(ctor == "give"))
+                slots[slot] = [it, before, ctor != "keep", kept if ctor == "keep" else None]
+                del it, kept
+            except Exception:  # noqa: BLE001
+                out = 2
+        elif what == "next":
+            out = one_next(st[1])
+            targets = list(ENDED) + (ends(st[1]) if out in (1, 2) else [])
+        elif what == "exhaust":
+            for _ in range(40):
+                out = one_next(st[1])
+                if out:
+                    break
+            targets = list(ENDED) + (ends(st[1]) if out in (1, 2) else [])
+        elif what == "close":
+            if slots[st[1]][0] is None:
+                out = 4
+            else:
+                slots[st[1]][0].close()
+                targets = ends(st[1])
+        elif what == "drop":
+            s = slots[st[1]]
+            s[0] = None
+            gc.collect()
+            targets = ends(st[1])
+        elif what == "ownerfin":
+            s = slots[st[1]]
+            if s[3] is not None:
+                s[3].finalize()
+                targets = [s[1]]
+        elif what in ("render", "str", "draw"):
+            node = NODES[st[1]]
+            try:
+                if what == "render":
+                    node.render()
+                elif what == "str":
+                    str(node)
+                else:
+                    node.draw(animate=bool(st[2]), loops=1, check_size=False)
+            except StopIteration:
+                out = 1
+            except Exception:  # noqa: BLE001
+                out = 2
+            targets = list(ENDED) + [s for s in range(before, len(OBJ)) if OBJ[s]["root"]]
+        elif what == "tclose":  # ["tclose", slot, gate node, moves until the gate]
+            _, slot, gnode, moves = st
+            gate = GATES[gnode] = (threading.Event(), threading.Event())
+            err = []
+
+            def work(it=slots[slot][0], err=err):
+                try:
+                    it.close()
+                except BaseException as e:  # noqa: BLE001
+                    err.append(type(e).__name__)
+
+            th = threading.Thread(target=work, daemon=True)
+            pending[:] = [idx, th, gate, err]
+            th.start()
+            if not gate[0].wait(TIMEOUT):
+                out = 3
+            targets = ends(slot)
+            sched = [idx, moves, 0]
+        elif what == "trelease":  # the gate opens, the second thread finishes its close()
+            if pending:
+                tidx, th, gate, err = pending
+                del pending[:]
+                gate[1].set()
+                th.join(TIMEOUT)
+                out = 3 if th.is_alive() else (2 if err else 0)
+                sched = [tidx, None, 1]
+            else:
+                out = 4
+        else:
+            raise AssertionError(what)
+        return {"out": out, "targets": targets, "sched": sched}
+
     try:
         for idx, st in enumerate(case["script"]):
-            del ENDED[:]
-            before = len(OBJ)
-            what = st[0]
-            out, targets, sched = 0, [], [idx, None, 1]
-            if what in ("next", "exhaust", "close", "drop", "ownerfin", "tclose") and st[1] not in slots:
-                out = 4  # (a shrinking candidate) nothing to operate on
-            elif what == "iter":
-                _, slot, node, ctor = st
-                old = slots.pop(slot, None)  # the previous iterator of the slot loses its last reference first
-                targets = [old[1]] if old and old[2] and old[0] is not None else []
-                del old
-                gc.collect()
-                before = len(OBJ)
-                try:
-                    if ctor == "init":
-                        it, kept = RenderIterator(NODES[node]), None
-                    else:
-                        kept = NODES[node]._get_render_data_(iteration=True)
-                        it = RenderIterator._from_render_data_(NODES[node], kept, finalize=(ctor == "give"))
-                    slots[slot] = [it, before, ctor != "keep", kept if ctor == "keep" else None]
-                    del it, kept
-                except Exception:  # noqa: BLE001
-                    out = 2
-            elif what == "next":
-                out = one_next(st[1])
-                targets = list(ENDED) + (ends(st[1]) if out in (1, 2) else [])
-            elif what == "exhaust":
-                for _ in range(40):
-                    out = one_next(st[1])
-                    if out:
-                        break
-                targets = list(ENDED) + (ends(st[1]) if out in (1, 2) else [])
-            elif what == "close":
-                if slots[st[1]][0] is None:
-                    out = 4
-                else:
-                    slots[st[1]][0].close()
-                    targets = ends(st[1])
-            elif what == "drop":
-                s = slots[st[1]]
-                s[0] = None
-                gc.collect()
-                targets = ends(st[1])
-            elif what == "ownerfin":
-                s = slots[st[1]]
-                if s[3] is not None:
-                    s[3].finalize()
-                    targets = [s[1]]
-            elif what in ("render", "str", "draw"):
-                node = NODES[st[1]]
-                try:
-                    if what == "render":
-                        node.render()
-                    elif what == "str":
-                        str(node)
-                    else:
-                        node.draw(animate=bool(st[2]), check_size=False)
-                except StopIteration:
-                    out = 1
-                except Exception:  # noqa: BLE001
-                    out = 2
-                targets = list(ENDED) + [s for s in range(before, len(OBJ)) if OBJ[s]["root"]]
-            elif what == "tclose":  # ["tclose", slot, gate node, moves until the gate]
-                _, slot, gnode, moves = st
-                gate = GATES[gnode] = (threading.Event(), threading.Event())
-                err = []
-
-                def work(it=slots[slot][0], err=err):
-                    try:
-                        it.close()
-                    except BaseException as e:  # noqa: BLE001
-                        err.append(type(e).__name__)
-
-                th = threading.Thread(target=work, daemon=True)
-                pending[:] = [idx, th, gate, err]
-                th.start()
-                if not gate[0].wait(TIMEOUT):
-                    out = 3
-                targets = ends(slot)
-                sched = [idx, moves, 0]
-            elif what == "trelease":  # the gate opens, the second thread finishes its close()
-                if pending:
-                    tidx, th, gate, err = pending
-                    del pending[:]
-                    gate[1].set()
-                    th.join(TIMEOUT)
-                    out = 3 if th.is_alive() else (2 if err else 0)
-                    sched = [tidx, None, 1]
-                else:
-                    out = 4
-            else:
-                raise AssertionError(what)
-            steps.append({"out": out, "targets": targets, "sched": sched, "snap": snapshot()})
+            res = do_step(idx, st)  # its locals (iterators, data) die with it
+            res["snap"] = snapshot()
+            steps.append(res)
     finally:
         sys.stdout = old_stdout
         _renderable_mod.sleep = old_sleep
